@@ -85,6 +85,17 @@ Proof. by_compute. Qed.
 Lemma w7_reference : fin_trie false false (fst (step (OSetNonce 1 5) w7_s)) !! 1 = Some (Acct 5 0 ∅).
 Proof. by_compute. Qed.
 
+(* 8. touchChange.undo exempts the ripemd constant: a reverted touch of THAT address is not undone (touched
+      flag and dirty mark survive), so Finalise(true) sweeps the committed empty account.  The constant is
+      0x3030..3033 (ripemd_bytes), an address no transaction can name; on every other address the touch is undone. *)
+Definition w8_s (a : N) : state := fresh {[ a := Acct 0 0 ∅ ]} ∅ tok0 true 0.
+Lemma w8_ripemd_before : fin_trie false true (w8_s ripemd) !! ripemd = Some (Acct 0 0 ∅).
+Proof. by_compute. Qed.
+Lemma w8_ripemd_after : fin_trie false true (after_revert [Do (OAddFT ripemd 0)] (w8_s ripemd)) !! ripemd = None.
+Proof. by_compute. Qed.
+Lemma w8_other_after : fin_trie false true (after_revert [Do (OAddFT 13 0)] (w8_s 13)) !! 13 = Some (Acct 0 0 ∅).
+Proof. by_compute. Qed.
+
 (* ---------- the refutations as existential statements ---------- *)
 Definition good (s : state) : Prop := wf_al s /\ rb s.
 
@@ -159,4 +170,13 @@ Proof.
   exists w7_s, [Do (OAddFT 1 0)], (OSetNonce 1 5). split; [apply good_fresh|]. split; [reflexivity|].
   split; [repeat constructor; right; reflexivity|].
   intros H. pose proof w7_root as H1. pose proof w7_reference as H2. rewrite H, H2 in H1. discriminate H1.
+Qed.
+
+Lemma ripemd_exemption_refuted :
+  exists s body, good s /\ p002 s = true /\ Forall (item_ok true true) body /\
+                 fin_trie false true (after_revert body s) <> fin_trie false true s.
+Proof.
+  exists (w8_s ripemd), [Do (OAddFT ripemd 0)]. split; [apply good_fresh|]. split; [reflexivity|].
+  split; [repeat constructor; right; reflexivity|].
+  intros H. pose proof w8_ripemd_before as H1. pose proof w8_ripemd_after as H2. rewrite H, H1 in H2. discriminate H2.
 Qed.
